@@ -4,7 +4,10 @@ import pool_shared as ps
 import handles as H
 
 PROP = 'C01'
-REPLAYERS = {'pool.TaskHandler.body': 'replayers/taskhandler_body.py'}
+REPLAYERS = {'pool.TaskHandler.body': 'replayers/taskhandler_body.py',
+             'pool.TimeoutHandler.on_hard_timeout': 'replayers/hard_timeout.py',
+             'pool.ResultHandler._make_methods.<locals>.on_ack': 'replayers/result_handler.py',
+             'pool.ResultHandler._make_methods.<locals>.on_ready': 'replayers/result_handler.py'}
 
 ASSUMPTIONS = [
     'A-atomic: the handlers (on_ack, on_ready, one timeout scan, one supervision tick, one send) do not interleave with '
